@@ -240,7 +240,7 @@ def r63(chk, m):
     mod = m.module(DOM)
     for name, which, want in (('_nextSibling', 't2', 'c'), ('_nextSibling', 't1', 'b'), ('_previousSibling', 't2', 'b'), ('_previousSibling', 'c', 't2'),
                               ('_nextSibling', 'c', 'None'), ('_previousSibling', 't1', 'None')):
-        fn = mod.functions.get(name)
+        fn = m.func_or_none(mod, name)
         need(fn is not None, '%s not found' % name)
         chk.analysed(fn)
         d = D.Dom(m)
@@ -295,7 +295,7 @@ def r67(chk, m):
         want = 'a fresh list, remembered' if content is None else 'the argument itself, remembered'
         chk.decide(R, key, got, {want}, 'the child list of an element with %s is %s; expected %s - children added later would be missing from '
                    'the argument (and from the source, the XML and clones)' % (label, sorted(got), want), chk.where(getter))
-    fn = m.module(DOM).functions.get('_getElementsByTagName')
+    fn = m.func_or_none(DOM, '_getElementsByTagName')
     need(fn is not None, '_getElementsByTagName not found')
     chk.analysed(fn)
     d = D.Dom(m)
